@@ -2,9 +2,10 @@
   C09 — OCI Delete / auto-GC / GC remove exactly the garbage, keep live data, terminate.
   Property theorems only.  Model: `Model/Oci.lean`; helpers: `Proofs/OciDelete.lean`.
   Source facts: `Gen/Facts.lean` (`gcWalkAdvances`, `deleteIsTaggedCalls`,
-  `deleteSkipsAbsent`, `gcSavesIndex`).
+  `deleteSkipsAbsent`, `gcSavesIndex`, `tagDropsStale`).
 -/
 import OrasModel.Proofs.OciDelete
+import OrasModel.Proofs.OciTags
 import OrasModel.Gen.Facts
 namespace Oras.Props.C09
 open Oras Oras.OciSt
@@ -43,7 +44,7 @@ theorem c09_gc_walk_shadowed_diverges (c : OciCfg) (g : GMem) (n s : Node)
     cascade entries and saves the index after GC (facts re-extracted on every run). -/
 theorem c09_source_facts :
     Gen.gcWalkAdvances = true ∧ Gen.deleteIsTaggedCalls ≥ 2 ∧ Gen.deleteSkipsAbsent = true ∧
-    Gen.gcSavesIndex = true := by
+    Gen.gcSavesIndex = true ∧ Gen.tagDropsStale = true := by
   decide
 
 /-! ### Delete never touches another node's tag, nor a tagged node -/
@@ -154,6 +155,49 @@ theorem c09_invariants_tag (st : OciSt) (n : Node) (a : Nat) (k : RefKey)
     simp at this
     exact this hxk
   · exact List.Nodup.sublist (List.Sublist.map _ List.filter_sublist) hu
+
+/-! ### `isTagged` is exact (finding F16) -/
+
+/-- The tag sets `isTagged` reads are exact in every reachable state: they start exact and
+    `Tag`, `Untag` and `Store.delete` keep them exact. -/
+theorem c09_tags_exact_reachable :
+    TagsExact OciSt.empty ∧
+    (∀ st n a k, TagsExact st → TagsExact (st.resolverTag n a k)) ∧
+    (∀ st k, TagsExact st → TagsExact (st.resolverUntag k)) ∧
+    (∀ st n, TagsExact st → TagsExact (st.deleteOne n).1) := by
+  refine ⟨tagsExact_empty, tagsExact_resolverTag, tagsExact_resolverUntag, ?_⟩
+  intro st n hx
+  have h1 := tagsExact_foldl_untag (st.refs.filter (fun x => x.2.1 = n)) st hx
+  have congr : ∀ (a b : OciSt), a.refs = b.refs → a.tagsOf = b.tagsOf → TagsExact b → TagsExact a := by
+    intro a b hr ht hb
+    unfold TagsExact lookupRef at *
+    rw [hr, ht]; exact hb
+  unfold deleteOne
+  simp only
+  split
+  · split
+    · exact congr _ _ (by simp [saveIndex]) (by simp [saveIndex]) h1
+    · exact congr _ _ (by simp [saveIndex]) (by simp [saveIndex]) h1
+  · split
+    · exact congr _ _ (by simp) (by simp) h1
+    · exact congr _ _ (by simp) (by simp) h1
+
+/-- **`isTagged n` holds exactly when some reference other than `n`'s own digest points to
+    `n`** — so the cascade spares exactly the nodes that carry a tag.  (Before the repair of
+    F16 only the `←` direction held.) -/
+theorem c09_isTagged_exact (st : OciSt) (n : Node) (hi : RefTagInv st) (hx : TagsExact st) :
+    st.isTagged n = true ↔ ∃ k a, k ≠ RefKey.dig n ∧ st.lookupRef k = some (n, a) :=
+  isTagged_iff st n hi hx
+
+/-- F16 as found: with the resolver as it was written, a name moved from node 2 to node 0
+    still counts as a tag of node 2, which no reference points to any more; the repaired
+    resolver reports it untagged. -/
+theorem c09_counterexample_stale_tag :
+    let stale := (OciSt.empty.resolverTagStale 2 0 (.tag 5)).resolverTagStale 0 0 (.tag 5)
+    let fixed := (OciSt.empty.resolverTag 2 0 (.tag 5)).resolverTag 0 0 (.tag 5)
+    stale.isTagged 2 = true ∧ stale.lookupRef (.tag 5) = some (0, 0) ∧ (∀ e ∈ stale.refs, e.2.1 ≠ 2) ∧
+    fixed.isTagged 2 = false ∧ fixed.isTagged 0 = true := by
+  decide
 
 /-- Non-vacuity and the F2 scenario: a tagged referrer survives the deletion of its
     subject with the filter, and is deleted without it. -/
